@@ -17,6 +17,7 @@ const (
 	PayloadMinLen  = PayloadHdrLen + 4
 	KindRequest    = 0
 	KindReply      = 1
+	KindReplyExtra = 2 // an additional reply the destination sends before the genuine echo (oversize, or from a non-target source); never counts as the echo
 	NoResponder    = 0xFFFF
 	payloadCRCSize = 4
 )
